@@ -1,5 +1,6 @@
 SPECIFICATION Spec
 CONSTANTS MaxLen = 5
+EmitMod = 1
 Emit = FALSE
 Vocab <- VocabQuick
 INVARIANTS TypeOK DesignStrict
